@@ -21,7 +21,7 @@ mod proofs {
         acc
     }
 
-    // @harness id=C19 tier=thorough unwind=18 timeout=3000 fs=4096
+    // @harness id=C19 tier=thorough unwind=18 timeout=6000 fs=4096
     // @desc extract_lwe(ct, i) followed by assemble_lwe gives a ciphertext whose CONSTANT phase coefficient under any secret key equals coefficient i of the original phase c0 + c1*s, for every index i; level, scale and correction factor are carried over
     // @bounds BFV N=4, q={97,113} (checked in both RNS components), coefficient representation; all ciphertext residues, all ternary keys, every i in 0..3
     // @funcs Evaluator::extract_lwe, LWECiphertext::assemble_lwe, Evaluator::assemble_lwe, polysmallmod::negacyclic_shift_p
